@@ -1,5 +1,6 @@
 (** C06 -- Importing GDSII into the raw model preserves the flattened geometry.
-    Property theorems only; proofs are in Raw/RawGds_proofs.v and Raw/RawFlatten_proofs.v.
+    Property theorems only; proofs are in Raw/RawGds_proofs.v, Raw/RawFlatten_proofs.v, Raw/RawGdsSafe_proofs.v and
+    (the nets clause, section (7)) Raw/RawGdsNets_proofs.v.
 
     Model: Raw/RawGds.v ([import_lib cfg ly0 g], layout21raw/src/gds.rs GdsImporter) and
     Raw/RawFlatten.v ([raw_flatten L i], `Layout::flatten`, over the transform model of C12).
@@ -7,7 +8,7 @@
     [cfg_orig] is the importer as found, [cfg_fixed] the importer with every repair proposed in
     work/c06/fix-*.patch (and C07's Pico repair); [cfg_without_*] has one repair missing. *)
 From Coq Require Import ZArith List String Bool.
-From L21 Require Import Base.Hex Raw.RawData Raw.RawGds Raw.RawFlatten Raw.RawGdsCheck Raw.RawGds_proofs Raw.RawFlatten_proofs Raw.RawGdsSafe_proofs.
+From L21 Require Import Base.Hex Raw.RawData Raw.RawGds Raw.RawFlatten Raw.RawGdsCheck Raw.RawGds_proofs Raw.RawFlatten_proofs Raw.RawGdsSafe_proofs Raw.RawGdsNets_proofs.
 From L21 Require Gds.GdsData Raw.RawGdsSpec Geom.Transform Geom.TransformSpec.
 Import ListNotations.
 Local Open Scope Z_scope.
@@ -145,16 +146,17 @@ Proof. exact import_array_rel. Qed.
     specification's "inside": where the specification says inside (on the boundary included) the test is
     true, where it says outside it is false; for a rectangle imported from a 4-vertex boundary the
     answer is that of the boundary's own polygon (both windings, all start corners).  Paths are not
-    covered by this lemma.  The full statement -- the nets and annotations of every imported cell follow
-    the labels ([S.nets_okb], [S.annots_okb]) -- is [C06_nets_full]; it is checked on every case of the
-    correspondence run and not proved (missing: the two-pass loop of `import_layout` against the relation,
-    and the path case of the test). *)
+    covered by this lemma; [C06_label_test_sound] in section (7) covers all three shape kinds.  The statement in
+    the form the correspondence run evaluates on every case -- the nets and annotations of every imported cell
+    follow the labels ([S.nets_okb], [S.annots_okb], three-valued: where the specification leaves "inside" open
+    either answer is accepted) -- is [C06_nets_full], a theorem since 2026-10-02 (Raw/RawGdsNets_proofs.v); the
+    exact statement, which also says what happens with ambiguous labels, is [C06_nets] in section (7). *)
 Theorem C06_label_test_sound_partial :
   forall c sh gm q b, fx_contains c = true -> shape_rel sh gm -> (forall pts w, sh <> Path pts w) ->
   shape_contains c sh q = IOk b -> tri_agrees (S.label_in gm (S.rpt q)) b.
 Proof. exact label_test_sound_partial. Qed.
 
-Definition C06_nets_full : Prop :=
+Theorem C06_nets_full :
   forall g L, import_lib cfg_fixed [] g = IOk L -> S.right_angle g -> S.labels_ascii g = true ->
   forall s, In s (G.l_structs g) ->
   exists k cell l shapes,
@@ -163,6 +165,7 @@ Definition C06_nets_full : Prop :=
     S.omap_all (S.norm_raw_elem (lib_layers L)) (lay_elems l) = Some (map S.norm_fshape shapes) /\
     S.nets_okb (S.own_texts s) shapes (map e_net (lay_elems l)) = true /\
     S.annots_okb shapes (S.own_texts s) (map annot_pair (lay_annots l)) = true.
+Proof. exact nets_full_fixed. Qed.
 
 (** (5) `Layout::flatten` one level at a time: whenever the recursion [rflat] on the library itself
     (a cell's own elements, then instance by instance the flattening of the instantiated cell
@@ -390,3 +393,218 @@ Print Assumptions C06_neg_width_orig_refuted.
 Print Assumptions C06_neg_width_repaired.
 Print Assumptions C06_diag_label_orig_refuted.
 Print Assumptions C06_diag_label_repaired.
+
+(** * (7) The nets clause: "a text label lying inside a shape on the same layer names that shape's net, all
+    other labels survive as annotations" -- proofs in Raw/RawGdsNets_proofs.v.
+
+    Vocabulary, all on the GDSII side (Raw/RawGdsNets_proofs.v):
+    - [S.own_shapes s] / [S.own_texts s]: the BOUNDARY / BOX / PATH elements of the struct as (layer, datatype,
+      geometry), in element order / its TEXT elements in element order;
+    - [in_geom gm q] (decided by [in_geomb]): q lies in the closed region of the geometry gm --
+        BOUNDARY / BOX: C13's non-zero-winding region [in_region_nz] of the vertex list (boundary included).  For a
+          rectangle this is the closed box ([C06_region_rectangle]).  For a polygon whose signed crossing count at q
+          is -1, 0 or 1 it is the even-odd region [in_region] of the property statement ([C06_region_evenodd]);
+          simple polygons have that bound by the Jordan curve theorem, which is the step C13 leaves unproved
+          (C13_simple_winding_bound_full) -- exactly as C13 states it;
+        PATH: on an axis-parallel segment, the closed rectangle of half-width [w quot 2] around it (zero-length
+          segments read as vertical) -- C13's [path_cover] ([C06_region_manhattan_path]); on any other segment (only
+          the repaired `Path::contains` of work/c06/fix-8 gets that far: the code as found panics there, known
+          finding label-on-nonmanhattan-path, and returns no library) the projection falls on the segment and
+          4 cross^2 <= w^2 |b-a|^2;
+    - [insideb t f]: the TEXT t lies inside the shape f: same layer NUMBER (datatype and texttype play no part)
+      and [in_geomb (fs_geom f) (t_xy t)];
+    - [net_of texts f]: the lower-cased string of the FIRST text, in element order, inside f; [None] if there is none;
+    - [annots_of shapes texts]: the texts inside NO shape, in element order, each with its string verbatim and its
+      location.
+
+    (7a) The label test.  For all three shape kinds, whenever `Shape::contains` returns, its answer is membership
+    of that region; hence it agrees with the three-valued oracle of the correspondence run.  ([0 <= w]: the width
+    of a raw path is a `usize`.)  This completes [C06_label_test_sound_partial]. *)
+Theorem C06_label_test_sound :
+  forall c sh gm q b, fx_contains c = true -> shape_rel sh gm -> (forall pts w, sh = Path pts w -> 0 <= w) ->
+  shape_contains c sh q = IOk b -> tri_agrees (S.label_in gm (S.rpt q)) b.
+Proof. exact label_test_sound_all. Qed.
+Theorem C06_label_test_region :
+  forall c sh gm q b, fx_contains c = true -> shape_rel sh gm -> (forall pts w, sh = Path pts w -> 0 <= w) ->
+  shape_contains c sh q = IOk b -> (b = true <-> in_geom gm (S.rpt q)).
+Proof. exact label_test_region. Qed.
+Theorem C06_region_rectangle :
+  forall a b c d q, S.rect4 a b c d = true -> (in_geom (S.GPoly [a; b; c; d]) q <-> CS.in_box a c q).
+Proof. exact rect4_region_nz. Qed.
+Theorem C06_region_evenodd :
+  forall P q, -1 <= CS.winding P q <= 1 -> (in_geom (S.GPoly P) q <-> CS.in_region P q).
+Proof. intros P q H. symmetry. exact (CP.in_region_nz_iff P q H). Qed.
+Theorem C06_region_manhattan_path :
+  forall w ps q, Forall (fun e => CS.manhattan_seg (fst e) (snd e)) (CS.chain ps) ->
+  (in_geom (S.GPath ps w) q <-> CP.path_cover (Z.quot w 2) ps q).
+Proof. exact path_cover_gen_manhattan. Qed.
+
+(** (7b) The clause itself.  Whenever the repaired importer returns a library (right angles: the hypothesis of
+    (1)), every struct has a cell of its name whose layout has, in order, one element per own shape of the struct
+    (on its layer / datatype, with its geometry: [elem_rel]); the net of the i-th element is [net_of] of the i-th
+    shape; the annotations are [annots_of].  Nothing else: this is an equality, so it says which shapes get which
+    name in EVERY case, ambiguous ones included:
+    - a label inside several shapes of its layer number names ALL of them (not only the first);
+    - of two labels inside one shape the FIRST in element order wins; the later one is consumed all the same -- it is
+      neither a net nor an annotation ([C06_nets_ambiguous_example]: such a label is lost; DESIGN.md section 4 puts
+      these layouts outside the property by the unambiguity hypothesis);
+    - no size bound, any number of shapes, labels, layers. *)
+Theorem C06_nets :
+  forall g L, import_lib cfg_fixed [] g = IOk L -> S.right_angle g ->
+  forall s, In s (G.l_structs g) ->
+  exists k cell l shapes,
+    nth_error (lib_cells L) k = Some cell /\ c_name cell = str_of_bytes (G.s_name s) /\ c_layout cell = Some l /\
+    S.own_shapes s = S.SOk shapes /\
+    Forall2 (elem_rel (lib_layers L)) (lay_elems l) shapes /\
+    map e_net (lay_elems l) = map (net_of (S.own_texts s)) shapes /\
+    lay_annots l = annots_of shapes (S.own_texts s).
+Proof. exact nets_exact_fixed. Qed.
+
+(** (7b') The same for every importer variant with the six repairs of (1') and `Polygon::contains` as repaired for
+    C13, whichever `Path::contains` it has, for every caller-supplied layer table with the importer's own purposes,
+    and for every struct whose own boundaries are closed and boxes rectangular ([S.own_shapes s <> S.SSilent];
+    references may turn by any angle).  With `Path::contains` as found, a label on the layer number of a path with a
+    non-axis-parallel segment makes the import panic (unless an earlier segment already holds the label): then there
+    is no library and the statement is vacuous -- that is the known finding, not excluded by a hypothesis here. *)
+Theorem C06_nets_gen :
+  forall c ly0 g L, cfg_ok c -> fx_contains c = true -> ly_inv ly0 -> S.names_distinct g = true ->
+  import_lib c ly0 g = IOk L ->
+  forall s, In s (G.l_structs g) -> S.own_shapes s <> S.SSilent ->
+  exists k cell l shapes,
+    nth_error (lib_cells L) k = Some cell /\ c_name cell = str_of_bytes (G.s_name s) /\ c_layout cell = Some l /\
+    S.own_shapes s = S.SOk shapes /\
+    Forall2 (elem_rel (lib_layers L)) (lay_elems l) shapes /\
+    map e_net (lay_elems l) = map (net_of (S.own_texts s)) shapes /\
+    lay_annots l = annots_of shapes (S.own_texts s).
+Proof. exact nets_exact_gen. Qed.
+
+(** (7c) What [net_of] and [annots_of] say, clause by clause.
+    (i) the net of a shape is the lower-cased string of the first label inside it; every shape that holds a label
+    gets a net, the name of a label inside it; *)
+Theorem C06_net_is_first_label :
+  forall texts f n,
+  net_of texts f = Some n <->
+  exists t1 t t2, texts = t1 ++ t :: t2 /\ insideb t f = true /\ (forall t', In t' t1 -> insideb t' f = false) /\
+                  n = label_name t.
+Proof. exact net_of_some. Qed.
+Theorem C06_labelled_shape_gets_net :
+  forall texts f t, In t texts -> insideb t f = true ->
+  exists t', In t' texts /\ insideb t' f = true /\ net_of texts f = Some (label_name t').
+Proof. exact net_of_inside. Qed.
+(** (iii) a shape without a label inside gets no net; *)
+Theorem C06_unlabelled_shape_no_net :
+  forall texts f, net_of texts f = None <-> forall t, In t texts -> insideb t f = false.
+Proof. exact net_of_none. Qed.
+(** [nets_agree] under the hypothesis of DESIGN.md section 4 (labels unambiguous; here only its second half is needed,
+    and in the weaker form "the labels inside one shape agree on the lower-cased name"): the net of a shape is n
+    exactly when a label named n lies inside it; *)
+Theorem C06_nets_agree :
+  forall texts f,
+  (forall t1 t2, In t1 texts -> In t2 texts -> insideb t1 f = true -> insideb t2 f = true -> label_name t1 = label_name t2) ->
+  forall n, net_of texts f = Some n <-> exists t, In t texts /\ insideb t f = true /\ label_name t = n.
+Proof. exact net_of_agree. Qed.
+(** (ii) the annotations are exactly the labels inside no shape (their ORDER is the element order: [annots_of] is
+    a [filter] of the text list), string and location unchanged; *)
+Theorem C06_annotations :
+  forall shapes texts a,
+  In a (annots_of shapes texts) <->
+  exists t, In t texts /\ (forall f, In f shapes -> insideb t f = false) /\
+            a = mktext (str_of_bytes (G.t_string t)) (import_point (G.t_xy t)).
+Proof. exact annots_of_in. Qed.
+(** no label is duplicated, and none is lost when labels are unambiguous: always
+    #labels = #labels inside some shape + #annotations; when no label lies inside two shapes of its layer number and
+    no shape holds two labels ([labels_unambiguous], by position), #labels = #shapes with a net + #annotations. *)
+Theorem C06_label_count :
+  forall shapes texts,
+  List.length texts = (countb (fun t => existsb (insideb t) shapes) texts + List.length (annots_of shapes texts))%nat.
+Proof. exact label_count. Qed.
+Theorem C06_label_count_unambiguous :
+  forall shapes texts, labels_unambiguous shapes texts ->
+  List.length texts = (countb netted (map (net_of texts) shapes) + List.length (annots_of shapes texts))%nat.
+Proof. exact label_count_unambiguous. Qed.
+
+(** (7d) Closed examples.  One struct: two overlapping rectangles on layer 1 (datatypes 0 and 5), a path on layer 2, a
+    box on layer 3, a triangle on layer 4; labels: "Vdd" inside both rectangles, "OUT" inside the first rectangle only
+    (already named), "clk" within half the width of the path's second segment, "x" on a corner of the box, "far" outside
+    everything, "z" on a layer without shapes, "Tri" (texttype 7) on an edge of the triangle. *)
+Definition txt (s : string) (layer tt : Z) (xy : Z * Z) : G.element :=
+  G.EText (G.mkText (S.bytes_of_string s) layer tt (G.mkPt (fst xy) (snd xy)) None None None None None None []).
+Definition s_amb : G.gstruct :=
+  top [G.EBoundary (G.mkBoundary 1 0 (pts [(0,0); (10,0); (10,10); (0,10); (0,0)]) None None []);
+       txt "Vdd" 1 0 (7,7);
+       G.EBoundary (G.mkBoundary 1 5 (pts [(5,5); (5,20); (20,20); (20,5); (5,5)]) None None []);
+       txt "OUT" 1 0 (1,1);
+       G.EPath (G.mkPath 2 0 (pts [(0,0); (10,0); (10,10)]) (Some 4) None None None None None []);
+       txt "clk" 2 0 (12,3);
+       G.EBox (G.mkBox 3 0 (pts [(0,0); (0,4); (4,4); (4,0); (0,0)]) None None []);
+       txt "x" 3 0 (4,4); txt "far" 1 0 (100,100); txt "z" 9 0 (1,1);
+       G.EBoundary (G.mkBoundary 4 0 (pts [(0,0); (6,0); (3,5); (0,0)]) None None []);
+       txt "Tri" 4 7 (3,0)].
+Definition nets_of_cell (r : ires library) (k : nat) : option (list (option string) * list (string * TS.pt)) :=
+  match r with
+  | IOk L => match nth_error (lib_cells L) k with
+             | Some c => option_map (fun l => (map e_net (lay_elems l), map annot_pair (lay_annots l))) (c_layout c)
+             | None => None
+             end
+  | _ => None
+  end.
+(** "Vdd" names BOTH rectangles; "OUT" is lost (7 labels, 5 nets from 4 labels, 2 annotations); boundary points count
+    as inside; the model's output is what [net_of] / [annots_of] say, and the verdict of the checker is 0. *)
+Example C06_nets_ambiguous_example :
+  S.right_angle (wlib [s_amb]) /\
+  nets_of_cell (import_lib cfg_fixed [] (wlib [s_amb])) 0 =
+    Some ([Some "vdd"; Some "vdd"; Some "clk"; Some "x"; Some "tri"]%string,
+          [("far"%string, (100, 100)); ("z"%string, (1, 1))]) /\
+  (exists shapes, S.own_shapes s_amb = S.SOk shapes /\
+     map (net_of (S.own_texts s_amb)) shapes = [Some "vdd"; Some "vdd"; Some "clk"; Some "x"; Some "tri"]%string /\
+     map annot_pair (annots_of shapes (S.own_texts s_amb)) = [("far"%string, (100, 100)); ("z"%string, (1, 1))] /\
+     labels_unambiguousb shapes (S.own_texts s_amb) = false) /\
+  List.length (S.own_texts s_amb) = 7%nat /\
+  verdict_of cfg_fixed (wlib [s_amb]) = 0.
+Proof.
+  split; [vm_compute; reflexivity|]. split; [vm_compute; reflexivity|].
+  split; [eexists; split; [vm_compute; reflexivity|]; vm_compute; repeat split; reflexivity|].
+  split; vm_compute; reflexivity.
+Qed.
+
+(** Non-vacuity of (7b)-(7c) with the unambiguity hypothesis: the same struct without the second rectangle and
+    without "OUT" is unambiguous; 6 labels = 4 nets + 2 annotations. *)
+Definition s_unamb : G.gstruct :=
+  top [G.EBoundary (G.mkBoundary 1 0 (pts [(0,0); (10,0); (10,10); (0,10); (0,0)]) None None []);
+       txt "Vdd" 1 0 (7,7);
+       G.EPath (G.mkPath 2 0 (pts [(0,0); (10,0); (10,10)]) (Some 4) None None None None None []);
+       txt "clk" 2 0 (12,3);
+       G.EBox (G.mkBox 3 0 (pts [(0,0); (0,4); (4,4); (4,0); (0,0)]) None None []);
+       txt "x" 3 0 (4,4); txt "far" 1 0 (100,100); txt "z" 9 0 (1,1);
+       G.EBoundary (G.mkBoundary 4 0 (pts [(0,0); (6,0); (3,5); (0,0)]) None None []);
+       txt "Tri" 4 7 (3,0)].
+Example C06_nets_nonvacuous :
+  S.right_angle (wlib [s_unamb]) /\ S.labels_ascii (wlib [s_unamb]) = true /\
+  (exists L, import_lib cfg_fixed [] (wlib [s_unamb]) = IOk L) /\
+  nets_of_cell (import_lib cfg_fixed [] (wlib [s_unamb])) 0 =
+    Some ([Some "vdd"; Some "clk"; Some "x"; Some "tri"]%string, [("far"%string, (100, 100)); ("z"%string, (1, 1))]) /\
+  (exists shapes, S.own_shapes s_unamb = S.SOk shapes /\ labels_unambiguous shapes (S.own_texts s_unamb) /\
+     List.length (S.own_texts s_unamb) = 6%nat /\ countb netted (map (net_of (S.own_texts s_unamb)) shapes) = 4%nat /\
+     List.length (annots_of shapes (S.own_texts s_unamb)) = 2%nat).
+Proof.
+  split; [vm_compute; reflexivity|]. split; [vm_compute; reflexivity|].
+  split; [eexists; vm_compute; reflexivity|]. split; [vm_compute; reflexivity|].
+  eexists. split; [vm_compute; reflexivity|]. split; [apply labels_unambiguousb_sound; vm_compute; reflexivity|].
+  vm_compute. repeat split; reflexivity.
+Qed.
+
+Print Assumptions C06_nets_full.
+Print Assumptions C06_label_test_sound.
+Print Assumptions C06_label_test_region.
+Print Assumptions C06_region_rectangle.
+Print Assumptions C06_region_evenodd.
+Print Assumptions C06_region_manhattan_path.
+Print Assumptions C06_nets.
+Print Assumptions C06_nets_gen.
+Print Assumptions C06_net_is_first_label.
+Print Assumptions C06_labelled_shape_gets_net.
+Print Assumptions C06_unlabelled_shape_no_net.
+Print Assumptions C06_nets_agree.
+Print Assumptions C06_annotations.
+Print Assumptions C06_label_count.
+Print Assumptions C06_label_count_unambiguous.
